@@ -5,9 +5,11 @@ import (
 	"hash/fnv"
 	"reflect"
 	"strings"
+	"time"
 
 	"github.com/go-spatial/geom"
 	"github.com/pdok/texel/snap"
+	"verif/engine/ev"
 	"verif/engine/lat"
 	"verif/engine/ref"
 )
@@ -233,7 +235,72 @@ func scopesC07plain(thorough bool) []Scope {
 	return scs
 }
 
+// c07History: the result of a call must not depend on which calls were made before it in the same process (anything
+// remembered between calls).  Every input of two small scopes is snapped in enumeration order and then again in the
+// reverse order, with a call on an unrelated polygon in between; the two results of each input must be deep-equal.
+func c07History(r *ev.Run, shardI, shardN int) scopeReport {
+	t0 := time.Now()
+	rep := scopeReport{Scope: "history-independence", Grid: "synthetic", Exhaustive: true, Extra: map[string]int64{}}
+	type in struct {
+		rings [][]ref.P
+	}
+	for _, sc := range []Scope{
+		{Name: "L-half-2/history", GS: synthGS(0, 2, [2]int64{7, 7}), Spec: lat.Spec{Points: lat.Window(2, 2, 2), MaxK: 4, Valid: true}, IDSets: [][]int{{0}}},
+		{Name: "L-multi/history", GS: synthGS(2, 2, [2]int64{28, 28}), Spec: lat.Spec{Points: scale(lat.Window(2, 2, 2), 4), MaxK: 3, Valid: true}, IDSets: [][]int{{0, 1, 2}, {2}, {0, 2}}},
+		{Name: "L-holes-2/history", GS: synthGS(0, 2, [2]int64{7, 7}), Spec: lat.Spec{Points: lat.Window(2, 2, 2), MaxK: 3, Valid: true, MaxHoles: 1, HoleMaxK: 3}, IDSets: [][]int{{0}}},
+	} {
+		sc := sc
+		sc.G = sc.GS.Build()
+		var ins []in
+		st := lat.Enumerate(sc.Spec, 1, r.Expired, func(w int, rings [][]ref.P) {
+			cp := make([][]ref.P, len(rings))
+			for i := range rings {
+				cp[i] = append([]ref.P{}, rings[i]...)
+			}
+			ins = append(ins, in{cp})
+		})
+		if st.Aborted {
+			rep.Exhaustive = false
+		}
+		rep.States += st.States
+		rep.Transitions += st.Transitions
+		other := toPolygon(sc.G, [][]ref.P{{{0, 0}, {3, 0}, {3, 3}, {1, 1}, {0, 3}}})
+		cfgs := []snap.Config{{}, {KeepPointsAndLines: true, ReverseWindingOrder: true}}
+		first := make([]map[int][]geom.Polygon, 0, len(ins)*len(sc.IDSets)*len(cfgs))
+		for _, x := range ins {
+			poly := toPolygon(sc.G, x.rings)
+			for _, ids := range sc.IDSets {
+				for _, cfg := range cfgs {
+					res, _ := run(sc.G, poly, ids, cfg)
+					first = append(first, res)
+					rep.Calls++
+				}
+			}
+		}
+		for i := len(ins) - 1; i >= 0; i-- {
+			poly := toPolygon(sc.G, ins[i].rings)
+			for a := len(sc.IDSets) - 1; a >= 0; a-- {
+				for b := len(cfgs) - 1; b >= 0; b-- {
+					_, _ = run(sc.G, other, sc.IDSets[a], cfgs[b])
+					res, pan := run(sc.G, poly, sc.IDSets[a], cfgs[b])
+					rep.Calls += 2
+					want := first[(i*len(sc.IDSets)+a)*len(cfgs)+b]
+					if pan != nil || !reflect.DeepEqual(want, res) {
+						reportProblem(r, &sc, ins[i].rings, Problem{Sig: "result-depends-on-earlier-calls", What: "the same call returns different geometry depending on which polygons were snapped before it in the same process", IDs: sc.IDSets[a], Cfg: cfgs[b], Got: map[string]any{"first-pass": want, "second-pass": res, "panic": pan}})
+					}
+				}
+			}
+		}
+		rep.Inputs += int64(len(ins))
+		rep.Nontrivial += int64(len(ins))
+	}
+	rep.Bound = "every input of L-half-2 (<= 4 vertices), L-multi (<= 3 vertices, three id sets) and L-holes-2 (triangle + triangular hole) x two configurations, snapped in enumeration order and again in reverse order with an unrelated call in between"
+	rep.States++
+	rep.WallS = time.Since(t0).Seconds()
+	return rep
+}
+
 func init() {
-	register(&Prop{ID: "C07plain", EvidenceID: "C07", Scopes: scopesC07plain, Judge: judgeC07plain,
+	register(&Prop{ID: "C07plain", EvidenceID: "C07", Scopes: scopesC07plain, Judge: judgeC07plain, Extras: []func(*ev.Run, int, int) scopeReport{c07History},
 		Rule: "un-instrumented code: every input of the scopes is snapped three times (identical results required), with every non-empty subset of its rings given in the opposite direction (valid inputs; identical results required) and with reverse-winding on/off (rings of >= 3 vertices exactly reversed, nothing else changed)"})
 }
